@@ -7,6 +7,7 @@ package main
 import (
 	"bufio"
 	"bytes"
+	"compress/gzip"
 	"encoding/json"
 	"fmt"
 	"os"
@@ -609,4 +610,37 @@ func qlist(xs []string, n int) string {
 		fmt.Fprintf(&sb, " %q", x)
 	}
 	return sb.String()
+}
+
+// gzMembers compresses data as a gzip file of len(cuts)+1 members (RFC 1952: a gzip file is a series of members;
+// gzip(1) and Go's gzip.Reader deliver their concatenation). cuts are byte offsets into data, ascending.
+func gzMembers(data []byte, cuts []int) []byte {
+	var out bytes.Buffer
+	prev := 0
+	for _, c := range append(append([]int{}, cuts...), len(data)) {
+		if c < prev {
+			c = prev
+		}
+		if c > len(data) {
+			c = len(data)
+		}
+		zw := gzip.NewWriter(&out)
+		zw.Write(data[prev:c])
+		zw.Close()
+		prev = c
+	}
+	return out.Bytes()
+}
+
+// gzCuts draws 0-2 member boundaries for a gzip file (mostly none).
+func gzCuts(t interface{ W(int) int }, n int) []int {
+	if n < 2 || t.W(3) != 0 {
+		return nil
+	}
+	a := 1 + t.W(n-1)
+	if t.W(2) == 0 {
+		return []int{a}
+	}
+	b := a + t.W(n-a+1)
+	return []int{a, b}
 }
